@@ -305,10 +305,9 @@ class ResourceScenario(ScenarioData):
             return False
 
         # If scoreboard shows a booking but there's available time, it's a partial slot
-        # that was released - allow booking
-        if self.scoreboard[sb_idx] is not None and available_seconds < self.project.attributes.get(
-            "scheduleGranularity", 3600
-        ):
+        # that was released - allow booking. Any other marker (leave, holiday, off-duty) means
+        # the slot is not working time, however much of it is unused.
+        if self.booked(sb_idx) and available_seconds < self.project.attributes.get("scheduleGranularity", 3600):
             # Partial slot available - allow it
             pass
         elif self.scoreboard[sb_idx] is not None:
